@@ -16,7 +16,10 @@ ASSUMPTIONS = ['a password of the form $HEX[...] cannot be written plainly in th
 NSHARDS = 16
 POOL = ['password', 'Pass word', ' lead', 'trail ', '  two  ', 'пароль', 'café', '$HEX[41', 'x$HEX[41]', '$HEX[zz]', '12 abc', '7', 'a]', '$HEX[4142]', ' $HEX[41]']
 JUNK = [('blank', b''), ('tab', b'ab\tcd'), ('nel', 'ab\u0085cd'), ('ls', 'ab\u2028cd'), ('ps', 'ab\u2029cd'),
-        ('undecodable', {'utf-8': b'ab\xff\xfecd', 'cp1251': b'ab\x98cd'}), ('broken_hex', b'$HEX[4g]'), ('odd_hex', b'$HEX[414]')] + \
+        ('undecodable', {'utf-8': b'ab\xff\xfecd', 'cp1251': b'ab\x98cd'}), ('broken_hex', b'$HEX[4g]'), ('odd_hex', b'$HEX[414]'),
+        # well-formed hex whose bytes are not text in the file's encoding: cut inside a multi-byte character, a lone continuation byte, an invalid byte
+        ('hex_cut_multibyte', {'utf-8': b'$HEX[636166c3]'}), ('hex_lone_continuation', {'utf-8': b'$HEX[a9616263]'}),
+        ('hex_invalid_byte', {'utf-8': b'$HEX[ff]', 'cp1251': b'$HEX[6198]'}), ('hex_cut_4byte', {'utf-8': b'$HEX[6162f09f98]'})] + \
        [('c0_%02x' % c, b'ab' + bytes([c]) + b'cd') for c in range(0, 0x20) if c not in (0x0a, 0x0d, 0x09)]
 # the same characters as the first / the last character of the line and as the whole line: a validity test phrased as "does this text
 # split into more than one line" (or a reader that drops a trailing separator) treats these differently from an inner occurrence
@@ -222,6 +225,8 @@ def run_junk(tier, acc):
             ref_t, _ = train_bytes(wd, clean, enc, False, 'clean')
             for jname, junk in JUNK:
                 if isinstance(junk, dict):
+                    if enc not in junk:
+                        continue
                     jb = junk[enc]
                 elif isinstance(junk, str):
                     if not encodable(junk, enc):
@@ -254,7 +259,7 @@ def run_junk(tier, acc):
                             acc.fail(case, 'junk line %s at line %d (%s) makes the reader raise %r' % (jname, pos, enc, e), 'junk-raise:' + jname.split('_')[0])
                             continue
                         reps = 2 if (hexmode == 'plain' and nl == b'\n') else 1
-                        want_err = reps if jname in ('undecodable', 'broken_hex', 'odd_hex') else 0
+                        want_err = reps if (jname in ('undecodable', 'broken_hex', 'odd_hex') or jname.startswith('hex_')) else 0
                         if got == seq and (npw != len(seq) or nerr != want_err):
                             acc.fail(case, 'junk line %s at line %d (%s, valid lines %s): num_passwords=%d num_encoding_errors=%d, expected %d and %d'
                                      % (jname, pos, enc, hexmode, npw, nerr, len(seq), want_err), 'junk-counters:' + jname.split('_')[0])
